@@ -61,7 +61,7 @@ func (cs *chanState) probeReal() {
 // partner looks for a parked thread with a matching (opposite-direction) case.
 func (x *Exec) partner(cs *chanState, wantSend bool, me *thread) (*thread, int) {
 	for _, t := range x.threads {
-		if t == me || t.done || t.pending == nil || t.pending.done || t.pending.kind != OpChan {
+		if t == me || t.done || t.frozen || t.pending == nil || t.pending.done || t.pending.kind != OpChan {
 			continue
 		}
 		for i, c := range t.pending.cases {
